@@ -446,6 +446,7 @@ func main() {
 	outp := flag.String("out", "", "ndjson trace output (one segment per database store and schedule)")
 	seed := flag.Int64("seed", 1, "seed")
 	maxPoints := flag.Int("maxpoints", 0, "crash points per store and schedule (0 = every point)")
+	maxPointsDefault := flag.Int("maxpoints-default", 0, "the same for stores with the default limits: systemdb, defaultdb, databases created without settings (0 = every point)")
 	workers := flag.Int("workers", 6, "parallel recoveries")
 	only := flag.Int("only", -1, "run only this schedule")
 	self := flag.Bool("selftest", false, "corrupt one expectation (binding self-test)")
@@ -478,7 +479,7 @@ func main() {
 			vh.Fatalf("schedule %d: %s", i, msg)
 		}
 		t1 := time.Now()
-		r.images(filepath.Join(*dir, fmt.Sprintf("s%d", i)), *maxPoints, *workers, out)
+		r.images(filepath.Join(*dir, fmt.Sprintf("s%d", i)), *maxPoints, *maxPointsDefault, *workers, out)
 		res.Traces += len(r.order)
 		res.Count("schedules", 1)
 		if os.Getenv("VERIF_DEBUG") != "" {
